@@ -191,6 +191,13 @@ func removeInt(s []int, v int) []int {
 // t.pending (the reply t sees when it next runs) and wake other tasks.
 func (k *Kernel) handle(t *task, r *Req) {
 	t.pending = Rep{}
+	// (a final WaitGroup.Done is bookkeeping of a task whose work is over, like its exit)
+	if k.afterRoot && r.Op != OpExit && !(r.Op == OpWGAdd && r.A < 0) && t != k.root {
+		k.res.WorkAfterRoot++
+		if len(k.res.OpsAfterRoot) < 8 {
+			k.res.OpsAfterRoot = append(k.res.OpsAfterRoot, fmt.Sprintf("t%d(%s) %s", t.id, t.name, r.Op))
+		}
+	}
 	switch r.Op {
 	case OpSpawn:
 		// the facade has already registered the child (k.newTask) - r.A is its id
